@@ -34,6 +34,11 @@ func featureRule(g *Gen) string {
 		mods = append(mods, "domain=example.org|example.com")
 	case 2:
 		mods = append(mods, "domain=~example.org")
+	case 3:
+		if g.Bool() {
+			// permitted and excluded entries in one list: still ONE $domain modifier, and a specific rule
+			mods = append(mods, Pick(g, []string{"domain=example.org|~sub.example.org", "domain=~a.example.org|example.org|example.com", "domain=example.com|~x.example.com"}))
+		}
 	}
 	switch g.Intn(6) {
 	case 0:
@@ -133,6 +138,7 @@ func init() {
 		"@@||example.org^$urlblock", "@@||example.org^$genericblock,important", "||example.org^$popup", "@@||example.org^$stealth",
 		"||example.org^$domain=example.org,script", "||example.org^$ctag=~a,script", "||example.org^$client=~Mom,script",
 		"||example.org^$denyallow=example.net,script", "||example.org^$dnstype=~A,script",
+		"||example.org^$domain=example.org|~sub.example.org", "||example.org^$domain=example.org|~sub.example.org,script", "||example.org^$domain=~a.org|~b.org",
 		"||example.org^$match-case,~match-case", "||example.org^$image,~image", "||example.org^$third-party,~third-party", "||example.org^$~match-case",
 	}
 	register("c07", &Prop{
